@@ -264,6 +264,15 @@ def iRead {σ : Type} (C : Codec σ) (bufsz fuel : Nat) : IState σ → List (Na
         | none => some (.error 0)                                      -- unreachable: n ≤ size
         | some st2 => iRead C bufsz fuel st2 ops (acc ++ vis.take n)
 
+/--
+A reader that **reads the stream to its end** (what `gzip -t`, `xz -t` … do, and what the repair proposal
+`fixes/C15-drain-compressed-input.patch` makes the tar iterator do once it has seen the end-of-archive marker):
+`n` rounds of `get_buffered_data(want = 1)` followed by `advance_buffer(size)` — everything that is visible is taken
+(at most `bufsz` bytes are ever visible).  The tar reader of the current tree is *not* such a reader: it stops at the
+end-of-archive marker (`lib/tar/src/read_header.c`, two zero records) and never calls `get_buffered_data` again.
+-/
+def drainOps (bufsz n : Nat) : List (Nat × Nat) := List.replicate n (1, bufsz)
+
 /-! ## the same wrappers over wrapped streams that can **fail**
 
 `flush_inbuf` returns what `wrapped->append` returns (`if (ioret) return ioret;`), `xfrm_flush` what `wrapped->flush` returns,
